@@ -20,6 +20,7 @@ __TAPKEE_IMPLEMENTATION(LocalityPreservingProjections)
     void validate()
     {
         parameters[gaussian_kernel_width].checked().satisfies(Positivity<ScalarType>()).orThrow();
+        parameters[target_dimension].checked().satisfies(InRange<IndexType>(1, current_dimension + 1)).orThrow();
     }
 
     TapkeeOutput embed()
